@@ -79,3 +79,9 @@ Print Assumptions frame_loop_fuel_independent.
 Theorem pull_uint_var_advances : forall b v r, pull_uint_var b = POk v r -> (length r < length b)%nat.
 Proof. exact pull_uint_var_len. Qed.
 Print Assumptions pull_uint_var_advances.
+
+(* The dispatch table read from the source is exactly RFC 9000 Table 3 (+ RFC 9221 DATAGRAM). *)
+Theorem frame_table_rfc9000 :
+  map (fun row => (fst row, snd (snd row))) frame_table = rfc9000_table3.
+Proof. exact frame_table_is_rfc9000. Qed.
+Print Assumptions frame_table_rfc9000.
